@@ -1,6 +1,1471 @@
-//! C15: not implemented yet.
-use crate::util::Args;
-pub fn main(_a: &Args) {
-    eprintln!("c15: not implemented");
-    std::process::exit(2);
+//! C15: group validation and legacy kerning upconversion through Font::load of generated
+//! V1/V2/V3 UFO directories and Font::save.
+//!
+//! For every case the harness writes (a) the case as a Gallina term together with everything the
+//! implementation did (load outcome with the resulting groups and kerning or the error variant,
+//! outcome of saving a font that carries the given groups, class flags) for the comparison with
+//! the Coq model, and (b) the verdict of the property's own predicate, evaluated by an
+//! independent reading of the property text (`oracle_*` below; no knowledge of how norad names
+//! the new groups: the renaming is searched for).
+use crate::util::*;
+use norad::error::{FontLoadError, FontWriteError, GroupsValidationError};
+use norad::{Font, Name};
+use std::collections::{BTreeMap, BTreeSet};
+use std::fmt::Write as _;
+use std::path::{Path, PathBuf};
+
+pub const K1: &str = "public.kern1.";
+pub const K2: &str = "public.kern2.";
+pub const MMKL: &str = "@MMK_L_";
+pub const MMKR: &str = "@MMK_R_";
+
+pub type GMap = BTreeMap<String, Vec<String>>;
+pub type KMap = BTreeMap<String, BTreeMap<String, u64>>; // f64 by bit pattern
+
+#[derive(Clone, Debug)]
+pub struct GlyphSpec {
+    pub name: String,
+    pub inner: Option<String>, // name attribute inside the glif, if different
+    pub comps: Vec<String>,    // component bases
+}
+
+#[derive(Clone, Debug)]
+pub struct Case {
+    pub ver: u8,
+    pub groups: Option<GMap>,
+    pub kerning: Option<KMap>,
+    pub glyphs: Vec<GlyphSpec>,
+    pub shuffle: u64, // order in which dictionary keys are written to the files
+}
+
+impl Case {
+    pub fn glyph_names(&self) -> BTreeSet<String> {
+        self.glyphs.iter().map(|g| g.name.clone()).collect()
+    }
+    /// content of norad's NameList after loading the layers
+    pub fn interned(&self) -> BTreeSet<String> {
+        let mut s = BTreeSet::new();
+        for g in &self.glyphs {
+            s.insert(g.name.clone());
+            if let Some(i) = &g.inner {
+                s.insert(i.clone());
+            }
+            for c in &g.comps {
+                s.insert(c.clone());
+            }
+        }
+        s
+    }
+    pub fn to_json(&self) -> serde_json::Value {
+        use serde_json::{json, Value};
+        let g = match &self.groups {
+            None => Value::Null,
+            Some(g) => Value::Array(g.iter().map(|(n, ms)| json!([n, ms])).collect()),
+        };
+        let k = match &self.kerning {
+            None => Value::Null,
+            Some(k) => Value::Array(
+                k.iter()
+                    .map(|(a, row)| {
+                        json!([a, row.iter().map(|(b, v)| json!([b, f64::from_bits(*v)])).collect::<Vec<_>>()])
+                    })
+                    .collect(),
+            ),
+        };
+        let gl: Vec<Value> = self
+            .glyphs
+            .iter()
+            .map(|g| json!({"name": g.name, "inner": g.inner, "components": g.comps}))
+            .collect();
+        json!({"format_version": self.ver, "groups": g, "kerning": k, "glyphs": gl, "shuffle": self.shuffle})
+    }
+    pub fn from_json(v: &serde_json::Value) -> Case {
+        let groups = v["groups"].as_array().map(|a| {
+            a.iter()
+                .map(|e| {
+                    (
+                        e[0].as_str().unwrap().to_string(),
+                        e[1].as_array().unwrap().iter().map(|m| m.as_str().unwrap().to_string()).collect(),
+                    )
+                })
+                .collect::<GMap>()
+        });
+        let kerning = v["kerning"].as_array().map(|a| {
+            a.iter()
+                .map(|e| {
+                    (
+                        e[0].as_str().unwrap().to_string(),
+                        e[1].as_array()
+                            .unwrap()
+                            .iter()
+                            .map(|p| (p[0].as_str().unwrap().to_string(), p[1].as_f64().unwrap().to_bits()))
+                            .collect::<BTreeMap<String, u64>>(),
+                    )
+                })
+                .collect::<KMap>()
+        });
+        let glyphs = v["glyphs"]
+            .as_array()
+            .map(|a| {
+                a.iter()
+                    .map(|g| GlyphSpec {
+                        name: g["name"].as_str().unwrap().to_string(),
+                        inner: g["inner"].as_str().map(|s| s.to_string()),
+                        comps: g["components"]
+                            .as_array()
+                            .map(|c| c.iter().map(|x| x.as_str().unwrap().to_string()).collect())
+                            .unwrap_or_default(),
+                    })
+                    .collect()
+            })
+            .unwrap_or_default();
+        Case {
+            ver: v["format_version"].as_u64().unwrap_or(2) as u8,
+            groups,
+            kerning,
+            glyphs,
+            shuffle: v["shuffle"].as_u64().unwrap_or(0),
+        }
+    }
+}
+
+// ------------------------------------------------------------------ dump tree with string leaves
+#[derive(Clone, Debug, PartialEq)]
+pub enum O {
+    N(u64),
+    V(u64), // kerning value (bit pattern)
+    S(String),
+    L(Vec<O>),
+}
+/// Names are sent to Coq as indices into one table per run (a string literal costs ten term
+/// nodes per byte; a shard of 4 000 cases with literal names took a minute to type-check),
+/// kerning values (f64 bit patterns, only ever copied) as indices into a value table.
+#[derive(Default)]
+pub struct Interner {
+    pub names: Vec<String>,
+    idx: std::collections::HashMap<String, usize>,
+    pub vals: Vec<u64>,
+    vidx: std::collections::HashMap<u64, usize>,
+}
+impl Interner {
+    pub fn name(&mut self, s: &str) -> usize {
+        if let Some(i) = self.idx.get(s) {
+            return *i;
+        }
+        self.names.push(s.to_string());
+        self.idx.insert(s.to_string(), self.names.len() - 1);
+        self.names.len() - 1
+    }
+    pub fn val(&mut self, v: u64) -> usize {
+        if let Some(i) = self.vidx.get(&v) {
+            return *i;
+        }
+        self.vals.push(v);
+        self.vidx.insert(v, self.vals.len() - 1);
+        self.vals.len() - 1
+    }
+}
+impl O {
+    /// `in_val`: numbers directly under a kerning pair are value indices
+    pub fn render(&self, out: &mut String, it: &mut Interner) {
+        match self {
+            O::N(n) => {
+                let _ = write!(out, "EN {}", n);
+            }
+            O::V(v) => {
+                let _ = write!(out, "EN {}", it.val(*v));
+            }
+            O::S(s) => {
+                let _ = write!(out, "EI {}", it.name(s));
+            }
+            O::L(l) => {
+                out.push_str("EL [");
+                for (i, t) in l.iter().enumerate() {
+                    if i > 0 {
+                        out.push(';');
+                    }
+                    t.render(out, it);
+                }
+                out.push(']');
+            }
+        }
+    }
+}
+/// Hash of a dump tree, computed the same way by Run/C15.v ([otm_hash]); the outcomes of the
+/// enumerated cases are compared by hash (one numeral per case instead of sixty).
+/// tokens: N n -> 1,n ; V v -> 1,(v/10 as integer: the enumerated cases use 10,20,..) ;
+/// S s -> 2,len,bytes ; L l -> 3,len,children.  h' = (h * 1000003 + token + 1) mod 2^63.
+pub fn o_hash(o: &O) -> u64 {
+    fn feed(h: &mut u64, x: u64) {
+        *h = h.wrapping_mul(1_000_003).wrapping_add(x).wrapping_add(1) & ((1u64 << 63) - 1);
+    }
+    fn go(o: &O, h: &mut u64) {
+        match o {
+            O::N(n) => {
+                feed(h, 1);
+                feed(h, *n);
+            }
+            O::V(v) => {
+                feed(h, 1);
+                feed(h, (f64::from_bits(*v) / 10.0) as u64);
+            }
+            O::S(s) => {
+                feed(h, 2);
+                feed(h, s.len() as u64);
+                for b in s.bytes() {
+                    feed(h, b as u64);
+                }
+            }
+            O::L(l) => {
+                feed(h, 3);
+                feed(h, l.len() as u64);
+                for x in l {
+                    go(x, h);
+                }
+            }
+        }
+    }
+    let mut h: u64 = 7;
+    go(o, &mut h);
+    h
+}
+fn o_groups(g: &GMap) -> O {
+    O::L(g.iter()
+        .map(|(n, ms)| O::L(vec![O::S(n.clone()), O::L(ms.iter().map(|m| O::S(m.clone())).collect())]))
+        .collect())
+}
+fn o_kerning(k: &KMap) -> O {
+    O::L(k.iter()
+        .map(|(a, row)| {
+            O::L(vec![
+                O::S(a.clone()),
+                O::L(row.iter().map(|(b, v)| O::L(vec![O::S(b.clone()), O::V(*v)])).collect()),
+            ])
+        })
+        .collect())
+}
+fn o_gerr(e: &GroupsValidationError) -> O {
+    match e {
+        GroupsValidationError::InvalidName => O::L(vec![O::N(0)]),
+        GroupsValidationError::OverlappingKerningGroups { glyph_name, group_name } => {
+            O::L(vec![O::N(1), O::S(glyph_name.to_string()), O::S(group_name.to_string())])
+        }
+        #[allow(unreachable_patterns)]
+        _ => O::L(vec![O::N(7)]),
+    }
+}
+
+// ------------------------------------------------------------------ Gallina rendering of a case
+fn g_names<'a, I: IntoIterator<Item = &'a String>>(xs: I, it: &mut Interner) -> String {
+    let mut s = String::from("[");
+    for (i, x) in xs.into_iter().enumerate() {
+        if i > 0 {
+            s.push(';');
+        }
+        let _ = write!(s, "{}", it.name(x));
+    }
+    s.push(']');
+    s
+}
+pub fn render_case(c: &Case, it: &mut Interner) -> String {
+    let mut s = String::new();
+    let _ = write!(s, "mkcase {} ", c.ver);
+    match &c.groups {
+        None => s.push_str("None"),
+        Some(g) => {
+            s.push_str("(Some [");
+            for (i, (n, ms)) in g.iter().enumerate() {
+                if i > 0 {
+                    s.push(';');
+                }
+                let _ = write!(s, "({},{})", it.name(n), g_names(ms, it));
+            }
+            s.push_str("])");
+        }
+    }
+    s.push(' ');
+    match &c.kerning {
+        None => s.push_str("None"),
+        Some(k) => {
+            s.push_str("(Some [");
+            for (i, (a, row)) in k.iter().enumerate() {
+                if i > 0 {
+                    s.push(';');
+                }
+                let _ = write!(s, "({},[", it.name(a));
+                for (j, (b, v)) in row.iter().enumerate() {
+                    if j > 0 {
+                        s.push(';');
+                    }
+                    let _ = write!(s, "({},{})", it.name(b), it.val(*v));
+                }
+                s.push_str("])");
+            }
+            s.push_str("])");
+        }
+    }
+    s.push(' ');
+    s.push_str(&g_names(c.interned().iter(), it));
+    s.push(' ');
+    s.push_str(&g_names(c.glyph_names().iter(), it));
+    s
+}
+
+// ------------------------------------------------------------------ writing the UFO
+pub fn esc(s: &str) -> String {
+    let mut o = String::new();
+    for c in s.chars() {
+        match c {
+            '&' => o.push_str("&amp;"),
+            '<' => o.push_str("&lt;"),
+            '>' => o.push_str("&gt;"),
+            '"' => o.push_str("&quot;"),
+            c => o.push(c),
+        }
+    }
+    o
+}
+pub const HEAD: &str = "<?xml version=\"1.0\" encoding=\"UTF-8\"?>\n<plist version=\"1.0\">\n";
+
+pub fn order<T: Clone>(items: Vec<T>, shuffle: u64, salt: u64) -> Vec<T> {
+    let mut v = items;
+    if shuffle != 0 {
+        let mut r = Rng::new(shuffle ^ salt);
+        for k in (1..v.len()).rev() {
+            let j = r.below(k as u64 + 1) as usize;
+            v.swap(k, j);
+        }
+    }
+    v
+}
+
+fn fmt_val(bits: u64) -> String {
+    let v = f64::from_bits(bits);
+    if v.fract() == 0.0 && v.abs() < 1e9 {
+        format!("<integer>{}</integer>", v as i64)
+    } else {
+        format!("<real>{}</real>", v)
+    }
+}
+
+pub fn groups_plist(g: &GMap, shuffle: u64) -> String {
+    let mut s = String::from(HEAD);
+    s.push_str("<dict>\n");
+    for (n, ms) in order(g.iter().collect::<Vec<_>>(), shuffle, 1) {
+        let _ = write!(s, "<key>{}</key><array>", esc(n));
+        for m in ms {
+            let _ = write!(s, "<string>{}</string>", esc(m));
+        }
+        s.push_str("</array>\n");
+    }
+    s.push_str("</dict>\n</plist>\n");
+    s
+}
+pub fn kerning_plist(k: &KMap, shuffle: u64) -> String {
+    let mut s = String::from(HEAD);
+    s.push_str("<dict>\n");
+    for (a, row) in order(k.iter().collect::<Vec<_>>(), shuffle, 2) {
+        let _ = write!(s, "<key>{}</key><dict>", esc(a));
+        for (b, v) in order(row.iter().collect::<Vec<_>>(), shuffle, 3) {
+            let _ = write!(s, "<key>{}</key>{}", esc(b), fmt_val(*v));
+        }
+        s.push_str("</dict>\n");
+    }
+    s.push_str("</dict>\n</plist>\n");
+    s
+}
+
+pub fn write_ufo(dir: &Path, c: &Case) {
+    let _ = std::fs::remove_dir_all(dir);
+    std::fs::create_dir_all(dir.join("glyphs")).unwrap();
+    write_file(
+        &dir.join("metainfo.plist"),
+        &format!(
+            "{}<dict><key>creator</key><string>org.verif.c15</string><key>formatVersion</key><integer>{}</integer></dict>\n</plist>\n",
+            HEAD, c.ver
+        ),
+    );
+    if let Some(g) = &c.groups {
+        write_file(&dir.join("groups.plist"), &groups_plist(g, c.shuffle));
+    }
+    if let Some(k) = &c.kerning {
+        write_file(&dir.join("kerning.plist"), &kerning_plist(k, c.shuffle));
+    }
+    if c.ver == 3 {
+        write_file(
+            &dir.join("layercontents.plist"),
+            &format!("{}<array><array><string>public.default</string><string>glyphs</string></array></array>\n</plist>\n", HEAD),
+        );
+    }
+    let mut contents = String::from(HEAD);
+    contents.push_str("<dict>\n");
+    let fmt = if c.ver == 3 { 2 } else { 1 };
+    for (i, g) in c.glyphs.iter().enumerate() {
+        let _ = writeln!(contents, "<key>{}</key><string>g{}.glif</string>", esc(&g.name), i);
+        let mut glif = String::from("<?xml version=\"1.0\" encoding=\"UTF-8\"?>\n");
+        let _ = writeln!(glif, "<glyph name=\"{}\" format=\"{}\">", esc(g.inner.as_ref().unwrap_or(&g.name)), fmt);
+        glif.push_str("<advance width=\"500\"/>\n<outline>\n");
+        for b in &g.comps {
+            let _ = writeln!(glif, "<component base=\"{}\"/>", esc(b));
+        }
+        glif.push_str("</outline>\n</glyph>\n");
+        write_file(&dir.join("glyphs").join(format!("g{}.glif", i)), &glif);
+    }
+    contents.push_str("</dict>\n</plist>\n");
+    write_file(&dir.join("glyphs").join("contents.plist"), &contents);
+}
+
+// ------------------------------------------------------------------ what the implementation did
+#[derive(Clone, Debug)]
+pub enum LoadOut {
+    Ok(GMap, KMap),
+    InvalidGroups(O),
+    UpconversionFailure(O),
+    Other(String),
+    Panicked(String),
+}
+#[derive(Clone, Debug, PartialEq)]
+pub enum SaveOut {
+    NotRun,
+    Ok,
+    InvalidGroups(O),
+    Other(String),
+    Panicked(String),
+}
+
+fn font_gk(f: &Font) -> (GMap, KMap) {
+    let g = f.groups.iter().map(|(n, ms)| (n.to_string(), ms.iter().map(|m| m.to_string()).collect())).collect();
+    let k = f
+        .kerning
+        .iter()
+        .map(|(a, row)| (a.to_string(), row.iter().map(|(b, v)| (b.to_string(), v.to_bits())).collect()))
+        .collect();
+    (g, k)
+}
+
+pub struct Observed {
+    pub load: LoadOut,
+    pub save_direct: SaveOut,   // Font::new() carrying the given groups (and kerning), saved
+    pub resave: SaveOut,        // the loaded font saved again (sampled)
+    pub resave_same: bool,      // ... and loaded again: same groups and kerning
+}
+
+pub fn observe(dir: &Path, c: &Case, do_resave: bool) -> Observed {
+    observe_with(dir, c, do_resave, &|_| {}).0
+}
+
+/// `extra` may add files to the generated UFO before it is loaded; the loaded font is returned too
+pub fn observe_with(dir: &Path, c: &Case, do_resave: bool, extra: &dyn Fn(&Path)) -> (Observed, Option<Font>) {
+    let ufo = dir.join("in.ufo");
+    write_ufo(&ufo, c);
+    extra(&ufo);
+    let mut loaded: Option<Font> = None;
+    let load = match catch(|| Font::load(&ufo)) {
+        Err(m) => LoadOut::Panicked(m),
+        Ok(Err(FontLoadError::InvalidGroups(e))) => LoadOut::InvalidGroups(o_gerr(&e)),
+        Ok(Err(FontLoadError::GroupsUpconversionFailure(e))) => LoadOut::UpconversionFailure(o_gerr(&e)),
+        Ok(Err(e)) => LoadOut::Other(format!("{:?}", e).chars().take(200).collect()),
+        Ok(Ok(f)) => {
+            let (g, k) = font_gk(&f);
+            loaded = Some(f);
+            LoadOut::Ok(g, k)
+        }
+    };
+    let mut resave = SaveOut::NotRun;
+    let mut resave_same = true;
+    if let (Some(f), true) = (&loaded, do_resave) {
+        let out = dir.join("out.ufo");
+        let _ = std::fs::remove_dir_all(&out);
+        resave = match catch(|| f.save(&out)) {
+            Err(m) => SaveOut::Panicked(m),
+            Ok(Err(FontWriteError::InvalidGroups(e))) => SaveOut::InvalidGroups(o_gerr(&e)),
+            Ok(Err(e)) => SaveOut::Other(format!("{:?}", e).chars().take(200).collect()),
+            Ok(Ok(())) => SaveOut::Ok,
+        };
+        if resave == SaveOut::Ok {
+            match catch(|| Font::load(&out)) {
+                Ok(Ok(f2)) => resave_same = font_gk(&f2) == font_gk(f),
+                _ => resave_same = false,
+            }
+        }
+    }
+    let mut save_direct = SaveOut::NotRun;
+    if let Some(g) = &c.groups {
+        let made = catch(|| {
+            let mut f = Font::new();
+            for (n, ms) in g {
+                f.groups.insert(Name::new(n).unwrap(), ms.iter().map(|m| Name::new(m).unwrap()).collect());
+            }
+            if let Some(k) = &c.kerning {
+                for (a, row) in k {
+                    f.kerning.insert(
+                        Name::new(a).unwrap(),
+                        row.iter().map(|(b, v)| (Name::new(b).unwrap(), f64::from_bits(*v))).collect(),
+                    );
+                }
+            }
+            f
+        });
+        if let Ok(f) = made {
+            let out = dir.join("direct.ufo");
+            let _ = std::fs::remove_dir_all(&out);
+            save_direct = match catch(|| f.save(&out)) {
+                Err(m) => SaveOut::Panicked(m),
+                Ok(Err(FontWriteError::InvalidGroups(e))) => SaveOut::InvalidGroups(o_gerr(&e)),
+                Ok(Err(e)) => SaveOut::Other(format!("{:?}", e).chars().take(200).collect()),
+                Ok(Ok(())) => SaveOut::Ok,
+            };
+        }
+    }
+    (Observed { load, save_direct, resave, resave_same }, loaded)
+}
+
+// ------------------------------------------------------------------ the property's own predicates
+/// "Groups in which a glyph belongs to two first-side or two second-side groups, or whose
+/// kerning-group name is only the prefix" are invalid; all other groups are valid.  As in the
+/// reference implementation a glyph listed twice in one kerning group counts as two.
+pub fn groups_ok(g: &GMap) -> bool {
+    for pre in [K1, K2] {
+        let mut seen: BTreeSet<&str> = BTreeSet::new();
+        for (n, ms) in g {
+            if n.starts_with(pre) {
+                if n == pre {
+                    return false;
+                }
+                for m in ms {
+                    if !seen.insert(m.as_str()) {
+                        return false;
+                    }
+                }
+            }
+        }
+    }
+    true
+}
+
+/// the groups that have to be duplicated, by the property text: legacy prefix, or used on that
+/// side of a kerning pair (a kerning key naming a group, not a glyph, not already in new form)
+pub fn spec_cands(g: &GMap, k: &KMap, glyphs: &BTreeSet<String>) -> (BTreeSet<String>, BTreeSet<String>) {
+    let mut c1 = BTreeSet::new();
+    let mut c2 = BTreeSet::new();
+    for n in g.keys() {
+        if n.starts_with(MMKL) {
+            c1.insert(n.clone());
+        }
+        if n.starts_with(MMKR) {
+            c2.insert(n.clone());
+        }
+    }
+    for (a, row) in k {
+        if g.contains_key(a) && !glyphs.contains(a) && !a.starts_with(K1) {
+            c1.insert(a.clone());
+        }
+        for b in row.keys() {
+            if g.contains_key(b) && !glyphs.contains(b) && !b.starts_with(K2) {
+                c2.insert(b.clone());
+            }
+        }
+    }
+    (c1, c2)
+}
+
+#[derive(Debug, PartialEq)]
+pub enum Conv {
+    Ok,
+    GroupsFail(String),
+    PairsFail(String),
+}
+
+fn assignments(cands: &[String], news: &[String], g: &GMap, g2: &GMap) -> Vec<BTreeMap<String, String>> {
+    // all bijections cands -> news with identical member lists
+    fn go(
+        i: usize,
+        cands: &[String],
+        news: &[String],
+        used: &mut Vec<bool>,
+        cur: &mut BTreeMap<String, String>,
+        g: &GMap,
+        g2: &GMap,
+        out: &mut Vec<BTreeMap<String, String>>,
+    ) {
+        if out.len() >= 5000 {
+            return;
+        }
+        if i == cands.len() {
+            out.push(cur.clone());
+            return;
+        }
+        for j in 0..news.len() {
+            if !used[j] && g2.get(&news[j]) == g.get(&cands[i]) {
+                used[j] = true;
+                cur.insert(cands[i].clone(), news[j].clone());
+                go(i + 1, cands, news, used, cur, g, g2, out);
+                cur.remove(&cands[i]);
+                used[j] = false;
+            }
+        }
+    }
+    let mut out = vec![];
+    if cands.len() == news.len() {
+        go(0, cands, news, &mut vec![false; news.len()], &mut BTreeMap::new(), g, g2, &mut out);
+    }
+    out
+}
+
+/// the relation "Upconverted" of the property text: originals kept, every candidate duplicated
+/// under a distinct fresh name of its side with identical members, nothing else added, every
+/// pair renamed with its value unchanged and nothing else in the kerning
+pub fn oracle_upconverted(g: &GMap, k: &KMap, glyphs: &BTreeSet<String>, g2: &GMap, k2: &KMap) -> Conv {
+    for (n, ms) in g {
+        if g2.get(n) != Some(ms) {
+            return Conv::GroupsFail(format!("original group {:?} missing or altered", n));
+        }
+    }
+    let mut n1 = vec![];
+    let mut n2 = vec![];
+    for n in g2.keys() {
+        if !g.contains_key(n) {
+            if n.starts_with(K1) {
+                n1.push(n.clone());
+            } else if n.starts_with(K2) {
+                n2.push(n.clone());
+            } else {
+                return Conv::GroupsFail(format!("group {:?} added without a kerning prefix", n));
+            }
+        }
+    }
+    let (c1, c2) = spec_cands(g, k, glyphs);
+    let c1: Vec<String> = c1.into_iter().collect();
+    let c2: Vec<String> = c2.into_iter().collect();
+    if c1.len() != n1.len() || c2.len() != n2.len() {
+        return Conv::GroupsFail(format!(
+            "groups to duplicate: first side {:?}, second side {:?}; new groups found: {:?} {:?}",
+            c1, c2, n1, n2
+        ));
+    }
+    let a1 = assignments(&c1, &n1, g, g2);
+    let a2 = assignments(&c2, &n2, g, g2);
+    if a1.is_empty() || a2.is_empty() {
+        return Conv::GroupsFail("no assignment of new names to the groups to duplicate with identical members".into());
+    }
+    let mut why = String::new();
+    for s1 in &a1 {
+        for s2 in &a2 {
+            let mut want: BTreeMap<(String, String), u64> = BTreeMap::new();
+            let mut rows: BTreeSet<String> = BTreeSet::new();
+            let mut clash = false;
+            for (a, row) in k {
+                let a2n = s1.get(a).unwrap_or(a).clone();
+                if !rows.insert(a2n.clone()) {
+                    clash = true;
+                }
+                for (b, v) in row {
+                    let b2n = s2.get(b).unwrap_or(b).clone();
+                    if want.insert((a2n.clone(), b2n), *v).is_some() {
+                        clash = true;
+                    }
+                }
+            }
+            let mut have: BTreeMap<(String, String), u64> = BTreeMap::new();
+            for (a, row) in k2 {
+                for (b, v) in row {
+                    have.insert((a.clone(), b.clone()), *v);
+                }
+            }
+            let have_rows: BTreeSet<String> = k2.keys().cloned().collect();
+            if !clash && want == have && rows == have_rows {
+                return Conv::Ok;
+            }
+            if why.is_empty() {
+                why = if clash {
+                    "two kerning keys coincide after renaming; a pair or row was lost".to_string()
+                } else {
+                    format!("kerning after conversion {:?} is not the renamed input {:?}", have, want)
+                };
+            }
+        }
+    }
+    Conv::PairsFail(why)
+}
+
+/// may a conforming conversion of valid legacy groups be refused?  Only when the result the
+/// property demands (copies with identical members under first/second-side names) is itself
+/// invalid by the first sentence of the property, or a new name would be the bare prefix.
+pub fn refusal_justified(g: &GMap, k: &KMap, glyphs: &BTreeSet<String>) -> bool {
+    let (c1, c2) = spec_cands(g, k, glyphs);
+    for (pre, cs, pat) in [(K1, &c1, MMKL), (K2, &c2, MMKR)] {
+        let mut seen: BTreeSet<&str> = BTreeSet::new();
+        for (n, ms) in g {
+            if n.starts_with(pre) {
+                for m in ms {
+                    if !seen.insert(m) {
+                        return true;
+                    }
+                }
+            }
+        }
+        for c in cs.iter() {
+            if c.replace(pat, "").is_empty() {
+                return true;
+            }
+            for m in &g[c] {
+                if !seen.insert(m) {
+                    return true;
+                }
+            }
+        }
+    }
+    false
+}
+
+/// Class predicate "PairCollision" (input-determined): with the new names made the way the
+/// reference algorithm makes them (ascending candidate order, legacy prefix removed, first free
+/// of name, name1, name2, ...), two first-level kerning keys or two keys of one row coincide
+/// after renaming.  Used only to classify an oracle failure, never to judge one.
+pub fn class_pair_collision(g: &GMap, k: &KMap, interned: &BTreeSet<String>) -> bool {
+    let (c1, c2) = spec_cands(g, k, interned);
+    let mut gn: BTreeSet<String> = g.keys().cloned().collect();
+    let mut tabs: Vec<BTreeMap<String, String>> = vec![];
+    for (pre, pat, cs) in [(K1, MMKL, &c1), (K2, MMKR, &c2)] {
+        let mut t = BTreeMap::new();
+        for c in cs.iter() {
+            let base = format!("{}{}", pre, c.replace(pat, ""));
+            let mut n = base.clone();
+            let mut i = 1u64;
+            while gn.contains(&n) {
+                n = format!("{}{}", base, i);
+                i += 1;
+            }
+            gn.insert(n.clone());
+            t.insert(c.clone(), n);
+        }
+        tabs.push(t);
+    }
+    let mut rows = BTreeSet::new();
+    for (a, row) in k {
+        if !rows.insert(tabs[0].get(a).unwrap_or(a).clone()) {
+            return true;
+        }
+        let mut bs = BTreeSet::new();
+        for b in row.keys() {
+            if !bs.insert(tabs[1].get(b).unwrap_or(b).clone()) {
+                return true;
+            }
+        }
+    }
+    false
+}
+
+pub struct Verdict {
+    pub expected: O,            // everything observable, for the comparison with the model
+    pub failures: Vec<(String, String)>, // (class or "", what) of the property oracle
+    pub converted: bool,
+    pub f21: bool,
+    pub pc: bool,
+}
+
+pub fn judge(c: &Case, ob: &Observed) -> Verdict {
+    let glyphs = c.glyph_names();
+    let interned = c.interned();
+    let empty_k = KMap::new();
+    let kin = c.kerning.as_ref().unwrap_or(&empty_k);
+    let mut failures: Vec<(String, String)> = vec![];
+    let legacy = c.ver < 3;
+    // class flags
+    let mut f21 = false;
+    let mut pc = false;
+    let mut converted = false;
+    if let (Some(g), true) = (&c.groups, legacy) {
+        if groups_ok(g) {
+            f21 = spec_cands(g, kin, &glyphs) != spec_cands(g, kin, &interned);
+            pc = class_pair_collision(g, kin, &interned);
+            if let LoadOut::Ok(g2, _) = &ob.load {
+                converted = g2.len() > g.len();
+            }
+        }
+    }
+    // ---- the comparison dump
+    let load_o = match &ob.load {
+        LoadOut::Ok(g2, k2) => O::L(vec![O::N(0), o_groups(g2), o_kerning(k2)]),
+        LoadOut::InvalidGroups(e) => O::L(vec![O::N(1), e.clone()]),
+        LoadOut::UpconversionFailure(e) => O::L(vec![O::N(2), e.clone()]),
+        LoadOut::Other(_) => O::L(vec![O::N(8)]),
+        LoadOut::Panicked(_) => O::L(vec![O::N(9)]),
+    };
+    let save_o = match &ob.save_direct {
+        SaveOut::NotRun => O::L(vec![]),
+        SaveOut::Ok => O::L(vec![O::N(0)]),
+        SaveOut::InvalidGroups(e) => O::L(vec![O::N(1), e.clone()]),
+        SaveOut::Other(_) => O::L(vec![O::N(8)]),
+        SaveOut::Panicked(_) => O::L(vec![O::N(9)]),
+    };
+    let expected = O::L(vec![load_o, save_o, O::N(f21 as u64), O::N(pc as u64)]);
+
+    // ---- the property oracle
+    match &ob.load {
+        LoadOut::Panicked(m) => failures.push(("".into(), format!("Font::load panicked: {}", m))),
+        LoadOut::Other(m) => failures.push(("".into(), format!("Font::load failed for another reason: {}", m))),
+        _ => {}
+    }
+    if let LoadOut::Ok(g2, k2) = &ob.load {
+        if !groups_ok(g2) {
+            failures.push(("".into(), "Font::load returned groups that violate the kerning group rules".into()));
+        }
+        match (&c.groups, legacy) {
+            (None, _) => {
+                if !g2.is_empty() || k2 != kin {
+                    failures.push(("".into(), "no groups file: groups must be empty and kerning unchanged".into()));
+                }
+            }
+            (Some(g), false) => {
+                if g2 != g || k2 != kin {
+                    failures.push(("".into(), "format 3: groups and kerning must be returned unaltered".into()));
+                }
+            }
+            (Some(g), true) => {
+                let r = oracle_upconverted(g, kin, &glyphs, g2, k2);
+                if r != Conv::Ok {
+                    // known classes: judged with the interner's content instead of the glyph names (F21),
+                    // and the overwritten pair (PairCollision)
+                    let ri = if f21 { oracle_upconverted(g, kin, &interned, g2, k2) } else { Conv::Ok };
+                    let what = format!("{:?}", r);
+                    if f21 && (ri == Conv::Ok || (matches!(ri, Conv::PairsFail(_)) && pc)) {
+                        failures.push(("F21".into(), what));
+                    } else if !f21 && matches!(r, Conv::PairsFail(_)) && pc {
+                        failures.push(("PairCollision".into(), what));
+                    } else {
+                        failures.push(("".into(), what));
+                    }
+                }
+            }
+        }
+    }
+    if let Some(g) = &c.groups {
+        let ok = groups_ok(g);
+        match &ob.load {
+            LoadOut::Ok(..) if !ok => {
+                failures.push(("".into(), "Font::load accepted groups that violate the kerning group rules".into()))
+            }
+            LoadOut::InvalidGroups(_) if ok => {
+                failures.push(("".into(), "Font::load refused valid groups".into()))
+            }
+            LoadOut::UpconversionFailure(_) => {
+                if !ok || !legacy {
+                    failures.push(("".into(), "GroupsUpconversionFailure outside a conversion of valid groups".into()));
+                } else if !refusal_justified(g, kin, &glyphs) {
+                    if f21 && refusal_justified(g, kin, &interned) {
+                        failures.push(("F21".into(), "valid legacy groups refused (judged by the interned names)".into()));
+                    } else {
+                        failures.push(("".into(), "valid legacy groups refused although the demanded result is valid".into()));
+                    }
+                }
+            }
+            _ => {}
+        }
+        if legacy && ok {
+            if let LoadOut::Ok(..) = &ob.load {
+                if refusal_justified(g, kin, &glyphs) && !f21 {
+                    failures.push(("".into(), "conversion accepted although the demanded result is invalid".into()));
+                }
+            }
+        }
+        match &ob.save_direct {
+            SaveOut::Ok if !ok => failures.push(("".into(), "Font::save wrote groups that violate the kerning group rules".into())),
+            SaveOut::InvalidGroups(_) if ok => failures.push(("".into(), "Font::save refused valid groups".into())),
+            SaveOut::Other(m) => failures.push(("".into(), format!("Font::save failed for another reason: {}", m))),
+            SaveOut::Panicked(m) => failures.push(("".into(), format!("Font::save panicked: {}", m))),
+            _ => {}
+        }
+    }
+    match &ob.resave {
+        SaveOut::NotRun => {}
+        SaveOut::Ok => {
+            if !ob.resave_same {
+                failures.push(("".into(), "saving the loaded font and loading it again changed groups or kerning".into()));
+            }
+        }
+        other => failures.push(("".into(), format!("saving the loaded font failed: {:?}", other))),
+    }
+    Verdict { expected, failures, converted, f21, pc }
+}
+
+// ------------------------------------------------------------------ generators
+pub const UNIVERSES: [[&str; 5]; 2] = [
+    ["A", "@MMK_L_A", "@MMK_R_A", "public.kern1.A", "public.kern2.A"],
+    ["A", "A1", "@MMK_L_A", "public.kern1.A", "public.kern1.A1"],
+];
+
+fn subsets_le3() -> Vec<Vec<usize>> {
+    let mut v = vec![vec![]];
+    for a in 0..5 {
+        v.push(vec![a]);
+    }
+    for a in 0..5 {
+        for b in a + 1..5 {
+            v.push(vec![a, b]);
+        }
+    }
+    for a in 0..5 {
+        for b in a + 1..5 {
+            for c in b + 1..5 {
+                v.push(vec![a, b, c]);
+            }
+        }
+    }
+    v
+}
+fn pairsets_le2() -> Vec<Vec<usize>> {
+    let mut v = vec![vec![]];
+    for a in 0..25 {
+        v.push(vec![a]);
+    }
+    for a in 0..25 {
+        for b in a + 1..25 {
+            v.push(vec![a, b]);
+        }
+    }
+    v
+}
+
+pub struct Exh {
+    gs: Vec<Vec<usize>>,
+    ps: Vec<Vec<usize>>,
+    pub mvs: usize,
+    pub glyph_variants: usize,
+}
+impl Exh {
+    pub fn new(mvs: usize) -> Exh {
+        Exh { gs: subsets_le3(), ps: pairsets_le2(), mvs, glyph_variants: 6 }
+    }
+    pub fn len(&self) -> usize {
+        self.gs.len() * self.ps.len() * self.mvs * self.glyph_variants
+    }
+    pub fn case(&self, u: &[&str; 5], mut idx: usize) -> Case {
+        let gv = idx % self.glyph_variants;
+        idx /= self.glyph_variants;
+        let mv = idx % self.mvs;
+        idx /= self.mvs;
+        let pi = idx % self.ps.len();
+        idx /= self.ps.len();
+        let gi = idx;
+        let mut g = GMap::new();
+        for &i in &self.gs[gi] {
+            let ms = match mv {
+                0 => vec![format!("m{}", i)],
+                1 => vec!["x".to_string()],
+                _ => vec![format!("m{}", i), "x".to_string()],
+            };
+            g.insert(u[i].to_string(), ms);
+        }
+        let mut k = KMap::new();
+        for (j, &p) in self.ps[pi].iter().enumerate() {
+            k.entry(u[p / 5].to_string()).or_default().insert(u[p % 5].to_string(), ((j + 1) as f64 * 10.0).to_bits());
+        }
+        let glyphs = if gv == 0 { vec![] } else { vec![GlyphSpec { name: u[gv - 1].to_string(), inner: None, comps: vec![] }] };
+        Case { ver: 1 + (pi % 2) as u8, groups: Some(g), kerning: Some(k), glyphs, shuffle: 0 }
+    }
+}
+
+const POOL: [&str; 26] = [
+    "A", "B", "A1", "A2", "@MMK_L_A", "@MMK_L_B", "@MMK_R_A", "@MMK_R_B", "@MMK_L_@MMK_L_A", "@MMK_L_", "@MMK_R_",
+    "@MMK_@MMK_L_L_A", "@MMK_L_A1", "public.kern1.A", "public.kern1.A1", "public.kern1.A2", "public.kern1.B",
+    "public.kern2.A", "public.kern2.A1", "public.kern1.", "public.kern2.", "public.kern1.@MMK_L_A", "public.kern3.A",
+    "\u{e9}", "@MMK_L_\u{e9}", "a\"b<&",
+];
+const GLYPHPOOL: [&str; 6] = ["x", "y", "z", "A", "B", "public.kern1.A"];
+
+pub fn random_case(seed: u64, idx: u64, harvested: &[String]) -> Case {
+    let mut r = Rng::new(seed.wrapping_mul(0x2545_F491_4F6C_DD1D) ^ idx.wrapping_mul(0x9E37_79B9_7F4A_7C15) ^ 0xC15);
+    // a small sub-universe, so that the set relations between names are dense
+    let usize_ = 3 + r.below(6) as usize;
+    let mut uni: Vec<&str> = vec![];
+    while uni.len() < usize_ {
+        // one name in four from around the prefixes in byte order / from the source's literals
+        let n: &str = if r.chance(1, 4) {
+            let k = r.below((VAL_NAMES.len() + harvested.len()) as u64) as usize;
+            if k < VAL_NAMES.len() {
+                VAL_NAMES[k]
+            } else {
+                harvested[k - VAL_NAMES.len()].as_str()
+            }
+        } else {
+            *r.pick(&POOL)
+        };
+        // the bare prefixes make the whole file invalid: keep them rare
+        if (n == K1 || n == K2) && !r.chance(1, 6) {
+            continue;
+        }
+        if !uni.contains(&n) {
+            uni.push(n);
+        }
+    }
+    let ver = match r.below(10) {
+        0 | 1 => 3,
+        2..=4 => 1,
+        _ => 2,
+    };
+    let overlap_mode = r.below(4); // 0: distinct members; 1..: members drawn from a shared pool more and more
+    let groups = if r.chance(1, 12) {
+        None
+    } else {
+        let mut g = GMap::new();
+        let n = r.below(7) as usize;
+        for gi in 0..n {
+            let name = r.pick(&uni).to_string();
+            let nm = r.below(4) as usize;
+            let mut ms = vec![];
+            for mi in 0..nm {
+                if r.below(8) < overlap_mode {
+                    ms.push(r.pick(&GLYPHPOOL).to_string());
+                } else {
+                    ms.push(format!("m{}_{}", gi, mi));
+                }
+            }
+            if nm > 0 && r.chance(1, 25) {
+                let d = ms[0].clone();
+                ms.push(d); // a glyph twice in one group
+            }
+            g.insert(name, ms);
+        }
+        Some(g)
+    };
+    let kerning = if r.chance(1, 10) {
+        None
+    } else {
+        let mut k = KMap::new();
+        let n = r.below(7) as usize;
+        for pi in 0..n {
+            let a = if r.chance(3, 4) { r.pick(&uni).to_string() } else { r.pick(&GLYPHPOOL).to_string() };
+            let b = if r.chance(3, 4) { r.pick(&uni).to_string() } else { r.pick(&GLYPHPOOL).to_string() };
+            let v: f64 = match r.below(4) {
+                0 => -((pi + 1) as f64) * 7.0,
+                1 => (pi + 1) as f64 + 0.5,
+                _ => (pi + 1) as f64 * 3.0,
+            };
+            k.entry(a).or_default().insert(b, v.to_bits());
+        }
+        if r.chance(1, 15) {
+            k.entry(r.pick(&uni).to_string()).or_default(); // a row without pairs
+        }
+        Some(k)
+    };
+    let mut glyphs: Vec<GlyphSpec> = vec![];
+    let ng = r.below(4) as usize;
+    for _ in 0..ng {
+        let name = if r.chance(1, 2) { r.pick(&uni).to_string() } else { r.pick(&GLYPHPOOL).to_string() };
+        if glyphs.iter().any(|g| g.name == name) {
+            continue;
+        }
+        let inner = if r.chance(1, 6) { Some(r.pick(&uni).to_string()) } else { None };
+        let mut comps = vec![];
+        if r.chance(1, 5) {
+            comps.push(r.pick(&uni).to_string());
+        }
+        glyphs.push(GlyphSpec { name, inner, comps });
+    }
+    let shuffle = if r.chance(1, 2) { r.next() | 1 } else { 0 };
+    Case { ver, groups, kerning, glyphs, shuffle }
+}
+
+// ------------------------------------------------------------------ corpus (witnesses run first)
+pub fn corpus_cases(dir: &Path) -> Vec<(String, Case)> {
+    let mut v = vec![];
+    if let Ok(rd) = std::fs::read_dir(dir) {
+        let mut files: Vec<PathBuf> = rd.filter_map(|e| e.ok()).map(|e| e.path()).filter(|p| p.extension().map(|x| x == "json").unwrap_or(false)).collect();
+        files.sort();
+        for p in files {
+            if let Ok(txt) = std::fs::read_to_string(&p) {
+                if let Ok(j) = serde_json::from_str::<serde_json::Value>(&txt) {
+                    let inp = if j.get("input").is_some() { &j["input"] } else { &j };
+                    v.push((p.file_name().unwrap().to_string_lossy().to_string(), Case::from_json(inp)));
+                }
+            }
+        }
+    }
+    v
+}
+
+/// Names around the two kerning prefixes in byte order: before, between and after the
+/// `public.kern1.*` and `public.kern2.*` runs of a sorted map, and near-prefix spellings.
+pub const VAL_NAMES: [&str; 20] = [
+    "Public.kern1.A", "a", "public.kerN1.A", "public.kern", "public.kern1", "public.kern1.", "public.kern1.A",
+    "public.kern1.\u{e9}", "public.kern1/", "public.kern10.A", "public.kern1A", "public.kern1_x", "public.kern2",
+    "public.kern2.", "public.kern2.A", "public.kern2.B", "public.kern3.A", "zzz", "\u{e9}", "public.kern1.B",
+];
+const VAL_CORE: [&str; 6] = ["public.kern1.A", "public.kern1.B", "public.kern2.A", "public.kern2.B", "public.kern1.", "public.kern2."];
+
+/// "magic" strings: the string literals of src/groups.rs and src/upconversion.rs that are valid
+/// names (code before the test modules first), each also with its last byte dropped and with
+/// a letter appended
+pub fn harvested_names(repo: &Path) -> Vec<String> {
+    let mut lits: Vec<String> = vec![];
+    for pass in 0..2 {
+        for f in ["src/groups.rs", "src/upconversion.rs"] {
+            let src = std::fs::read_to_string(repo.join(f)).unwrap_or_default();
+            let cut = src.find("#[cfg(test)]").unwrap_or(src.len());
+            let part = if pass == 0 { &src[..cut] } else { &src[cut..] };
+            let b: Vec<char> = part.chars().collect();
+            let mut i = 0;
+            while i < b.len() {
+                if b[i] == '"' {
+                    let mut j = i + 1;
+                    let mut t = String::new();
+                    let mut ok = true;
+                    while j < b.len() && b[j] != '"' {
+                        if b[j] == '\\' || b[j] == '{' || b[j] == '\n' {
+                            ok = false;
+                        }
+                        if b[j] == '\\' {
+                            j += 1;
+                        }
+                        t.push(b[j.min(b.len() - 1)]);
+                        j += 1;
+                    }
+                    if ok && !t.is_empty() && t.len() <= 32 && !t.contains(' ') && Name::new(&t).is_ok() && !lits.contains(&t) {
+                        lits.push(t);
+                    }
+                    i = j + 1;
+                } else if b[i] == '\'' && i + 2 < b.len() && b[i + 1] == '"' && b[i + 2] == '\'' {
+                    i += 3; // the char literal '"'
+                } else {
+                    i += 1;
+                }
+            }
+        }
+    }
+    let mut out: Vec<String> = vec![];
+    for l in lits.iter().take(10) {
+        let mut vs = vec![l.clone(), format!("{}A", l)];
+        let mut cs: Vec<char> = l.chars().collect();
+        cs.pop();
+        if !cs.is_empty() {
+            vs.push(cs.into_iter().collect());
+        }
+        for v in vs {
+            if !out.contains(&v) && !VAL_NAMES.contains(&v.as_str()) && out.len() < 24 {
+                out.push(v);
+            }
+        }
+    }
+    out
+}
+
+/// the validation stream: format 3 (no conversion), no kerning; every set of <= 3 of the
+/// VAL_NAMES (and pairs / core triples with the harvested names) as group names, under three
+/// member patterns that make same-side groups overlap or not
+pub fn validation_cases(harvested: &[String]) -> Vec<Case> {
+    let f: Vec<String> = VAL_NAMES.iter().map(|s| s.to_string()).collect();
+    let mut sets: Vec<Vec<String>> = vec![vec![]];
+    for a in 0..f.len() {
+        sets.push(vec![f[a].clone()]);
+        for b in a + 1..f.len() {
+            sets.push(vec![f[a].clone(), f[b].clone()]);
+            for c in b + 1..f.len() {
+                sets.push(vec![f[a].clone(), f[b].clone(), f[c].clone()]);
+            }
+        }
+    }
+    // four groups: a first-side and a second-side pair with one name of the universe in addition
+    for extra in f.iter() {
+        for (p, q) in [("public.kern2.A", "public.kern2.B"), ("public.kern1.A", "public.kern1.B"), ("public.kern1.A", "public.kern2.")] {
+            if extra != p && extra != q && extra != "public.kern1.\u{e9}" {
+                sets.push(vec!["public.kern1.\u{e9}".to_string(), extra.clone(), p.to_string(), q.to_string()]);
+            }
+        }
+    }
+    for h in harvested {
+        sets.push(vec![h.clone()]);
+        for u in f.iter().chain(harvested.iter()) {
+            if u != h {
+                sets.push(vec![h.clone(), u.clone()]);
+            }
+        }
+        for a in 0..VAL_CORE.len() {
+            for b in a + 1..VAL_CORE.len() {
+                if h != VAL_CORE[a] && h != VAL_CORE[b] {
+                    sets.push(vec![h.clone(), VAL_CORE[a].to_string(), VAL_CORE[b].to_string()]);
+                }
+            }
+        }
+    }
+    let mut v = vec![];
+    for (si, set) in sets.iter().enumerate() {
+        for pat in 0..3 {
+            if set.is_empty() && pat > 0 {
+                continue;
+            }
+            let mut g = GMap::new();
+            for (i, n) in set.iter().enumerate() {
+                let ms = match pat {
+                    0 => vec!["x".to_string()],
+                    1 => vec![format!("m{}", i)],
+                    _ => vec![format!("m{}", i), "x".to_string()],
+                };
+                g.insert(n.clone(), ms);
+            }
+            v.push(Case { ver: 3, groups: Some(g), kerning: None, glyphs: vec![], shuffle: if (si + pat) % 3 == 0 { si as u64 * 2 + 1 } else { 0 } });
+        }
+    }
+    v
+}
+
+pub struct Plan {
+    pub validation: usize,
+    pub harvested: Vec<String>,
+    pub corpus: Vec<(String, Case)>,
+    pub exh_universes: usize,
+    pub exh: Exh,
+    pub exh_stride: usize, // quick tier: every stride-th case of the second universe
+    pub random: usize,
+    pub seed: u64,
+}
+impl Plan {
+    pub fn new(a: &Args) -> Plan {
+        let corpus_dir = a
+            .extra
+            .iter()
+            .position(|x| x == "--corpus")
+            .and_then(|i| a.extra.get(i + 1))
+            .map(PathBuf::from)
+            .unwrap_or_else(|| PathBuf::from("corpus/C15"));
+        let th = a.thorough();
+        let repo = a
+            .extra
+            .iter()
+            .position(|x| x == "--repo")
+            .and_then(|i| a.extra.get(i + 1))
+            .map(PathBuf::from)
+            .unwrap_or_else(|| PathBuf::from("/repo"));
+        let harvested = harvested_names(&repo);
+        // corpus first, then the validation stream (both travel as structured cases)
+        let mut pre = corpus_cases(&corpus_dir);
+        let ncorpus = pre.len();
+        for c in validation_cases(&harvested) {
+            pre.push((String::new(), c));
+        }
+        Plan {
+            validation: pre.len() - ncorpus,
+            harvested,
+            corpus: pre,
+            exh_universes: 2,
+            exh: Exh::new(if th { 3 } else { 2 }),
+            exh_stride: if th { 1 } else { 4 },
+            random: if th { 300_000 } else { 12_000 },
+            seed: a.seed,
+        }
+    }
+    fn exh2_offset(&self) -> usize {
+        // the offset into each stride window moves with the seed, so that successive runs
+        // with different seeds sweep the whole second universe
+        self.seed as usize % self.exh_stride
+    }
+    fn exh2_len(&self) -> usize {
+        (self.exh.len() - self.exh2_offset() + self.exh_stride - 1) / self.exh_stride
+    }
+    /// (universe, index inside the enumeration) of an exhaustive case
+    pub fn exh_pos(&self, i: usize) -> Option<(usize, usize)> {
+        let c = self.corpus.len();
+        let e = self.exh.len();
+        if i < c {
+            None
+        } else if i < c + e {
+            Some((0, i - c))
+        } else if i < c + e + self.exh2_len() {
+            Some((1, (i - c - e) * self.exh_stride + self.exh2_offset()))
+        } else {
+            None
+        }
+    }
+    pub fn len(&self) -> usize {
+        self.corpus.len() + self.exh.len() + self.exh2_len() + self.random
+    }
+    pub fn kind(&self, i: usize) -> &'static str {
+        let c = self.corpus.len();
+        if i < c - self.validation {
+            "corpus"
+        } else if i < c {
+            "validation"
+        } else if i < c + self.exh.len() + self.exh2_len() {
+            "exhaustive"
+        } else {
+            "random"
+        }
+    }
+    pub fn case(&self, i: usize) -> Case {
+        let c = self.corpus.len();
+        let e = self.exh.len();
+        if i < c {
+            self.corpus[i].1.clone()
+        } else if i < c + e {
+            self.exh.case(&UNIVERSES[0], i - c)
+        } else if i < c + e + self.exh2_len() {
+            self.exh.case(&UNIVERSES[1], self.exh_pos(i).unwrap().1)
+        } else {
+            random_case(self.seed, (i - c - e - self.exh2_len()) as u64, &self.harvested)
+        }
+    }
+}
+
+fn print_observed(c: &Case, ob: &Observed, v: &Verdict) {
+    println!("case: {}", c.to_json());
+    println!("glyph names: {:?}", c.glyph_names());
+    println!("interned names: {:?}", c.interned());
+    println!("load: {:?}", ob.load);
+    println!("save of a font with these groups: {:?}", ob.save_direct);
+    println!("save of the loaded font: {:?} (reloaded equal: {})", ob.resave, ob.resave_same);
+    println!("classes: F21={} PairCollision={}", v.f21, v.pc);
+    if v.failures.is_empty() {
+        println!("property oracle: holds");
+    }
+    for (cl, w) in &v.failures {
+        println!("property oracle FAILS{}: {}", if cl.is_empty() { String::new() } else { format!(" [known class {}]", cl) }, w);
+    }
+}
+
+pub fn main(a: &Args) {
+    if let Some(rp) = &a.replay {
+        let txt = std::fs::read_to_string(rp).expect("replay file");
+        let j: serde_json::Value = serde_json::from_str(&txt).expect("json");
+        let inp = if j.get("input").is_some() && j["input"].get("case").is_some() {
+            j["input"]["case"].clone()
+        } else if j.get("input").is_some() {
+            j["input"].clone()
+        } else if j.get("case").is_some() {
+            j["case"].clone()
+        } else {
+            j.clone()
+        };
+        let c = Case::from_json(&inp);
+        let dir = a.out.join("replay");
+        std::fs::create_dir_all(&dir).unwrap();
+        let ob = observe(&dir, &c, true);
+        let v = judge(&c, &ob);
+        print_observed(&c, &ob, &v);
+        let mut it = Interner::default();
+        let mut s = String::new();
+        let rc = render_case(&c, &mut it);
+        v.expected.render(&mut s, &mut it);
+        println!("coq-case: ({}, {})", rc, s);
+        println!("coq-names: {:?}", it.names);
+        let _ = std::fs::remove_dir_all(&dir);
+        return;
+    }
+    let plan = Plan::new(a);
+    if let Some(i) = a.extra.iter().position(|x| x == "--case-json") {
+        // print the JSON of the cases with the given indices (for replay files)
+        for ix in a.extra[i + 1..].iter().filter_map(|x| x.parse::<usize>().ok()) {
+            if ix < plan.len() {
+                println!("{}", serde_json::json!({"index": ix, "kind": plan.kind(ix), "case": plan.case(ix).to_json()}));
+            }
+        }
+        return;
+    }
+    std::fs::create_dir_all(&a.out).unwrap();
+    let n = plan.len();
+    let nthreads = std::thread::available_parallelism().map(|x| x.get()).unwrap_or(4).min(8).max(1);
+    let chunk = (n + nthreads - 1) / nthreads;
+    struct Res {
+        expected: O,
+        failures: Vec<(String, String)>,
+        converted: bool,
+        f21: bool,
+        pc: bool,
+        load_kind: u8,
+    }
+    let mut results: Vec<Vec<Res>> = vec![];
+    std::thread::scope(|sc| {
+        let mut hs = vec![];
+        for t in 0..nthreads {
+            let plan = &plan;
+            let out = a.out.clone();
+            hs.push(sc.spawn(move || {
+                let dir = out.join(format!("work_{}", t));
+                std::fs::create_dir_all(&dir).unwrap();
+                let lo = t * chunk;
+                let hi = ((t + 1) * chunk).min(n);
+                let mut v = Vec::with_capacity(hi.saturating_sub(lo));
+                for i in lo..hi {
+                    let c = plan.case(i);
+                    let resave = plan.kind(i) != "exhaustive" || i % 16 == 0;
+                    let ob = observe(&dir, &c, resave);
+                    let vd = judge(&c, &ob);
+                    let load_kind = match &ob.load {
+                        LoadOut::Ok(..) => 0,
+                        LoadOut::InvalidGroups(_) => 1,
+                        LoadOut::UpconversionFailure(_) => 2,
+                        _ => 8,
+                    };
+                    v.push(Res { expected: vd.expected, failures: vd.failures, converted: vd.converted, f21: vd.f21, pc: vd.pc, load_kind });
+                }
+                let _ = std::fs::remove_dir_all(&dir);
+                v
+            }));
+        }
+        for h in hs {
+            results.push(h.join().unwrap());
+        }
+    });
+    let mut cases = String::new();
+    let mut exh = String::new();
+    let mut it = Interner::default();
+    let mut fails = vec![];
+    let (mut conv, mut f21, mut pc, mut inv, mut upf, mut other) = (0u64, 0u64, 0u64, 0u64, 0u64, 0u64);
+    let mut distinct: BTreeSet<u64> = BTreeSet::new();
+    let mut i = 0usize;
+    for chunk in &results {
+        for r in chunk {
+            let line: String = if let Some((u, j)) = plan.exh_pos(i) {
+                let l = format!("{} {} {} {}\n", i, u, j, o_hash(&r.expected));
+                exh.push_str(&l);
+                l
+            } else {
+                let start = cases.len();
+                let _ = write!(cases, "({}, (", i);
+                cases.push_str(&render_case(&plan.case(i), &mut it));
+                cases.push_str(", ");
+                r.expected.render(&mut cases, &mut it);
+                cases.push_str("))\n");
+                cases[start..].to_string()
+            };
+            if r.converted {
+                conv += 1;
+            }
+            if r.converted || r.load_kind != 0 {
+                // distinct by content among the cases that leave the default branch
+                let mut h: u64 = 0xcbf29ce484222325;
+                for b in line.bytes() {
+                    h = (h ^ b as u64).wrapping_mul(0x100000001b3);
+                }
+                distinct.insert(h);
+            }
+            f21 += r.f21 as u64;
+            pc += r.pc as u64;
+            match r.load_kind {
+                1 => inv += 1,
+                2 => upf += 1,
+                0 => {}
+                _ => other += 1,
+            }
+            for (cl, w) in &r.failures {
+                fails.push(serde_json::json!({"index": i, "class": cl, "what": w, "kind": plan.kind(i), "case": plan.case(i).to_json()}));
+            }
+            i += 1;
+        }
+    }
+    write_file(&a.out.join("cases.txt"), &cases);
+    write_file(&a.out.join("exh.txt"), &exh);
+    write_file(&a.out.join("names.txt"), &(it.names.join("\n") + "\n"));
+    write_file(&a.out.join("values.txt"), &(it.vals.iter().map(|v| v.to_string()).collect::<Vec<_>>().join("\n") + "\n"));
+    write_file(&a.out.join("oracle.json"), &serde_json::to_string(&fails).unwrap());
+    let summ = serde_json::json!({
+        "cases": n, "corpus": plan.corpus.len() - plan.validation, "validation_stream": plan.validation, "harvested_names": plan.harvested.clone(),
+        "corpus_files": plan.corpus.iter().map(|x| x.0.clone()).filter(|x| !x.is_empty()).collect::<Vec<_>>(),
+        "exhaustive_universe_1": plan.exh.len(), "exhaustive_universe_2_slice": plan.exh2_len(),
+        "exhaustive_stride_universe_2": plan.exh_stride, "exhaustive_member_variants": plan.exh.mvs, "random": plan.random,
+        "converted": conv, "load_refused_invalid_groups": inv, "load_refused_upconversion_failure": upf,
+        "load_other": other, "in_class_F21": f21, "in_class_PairCollision": pc,
+        "distinct_nontrivial": distinct.len(), "oracle_failures": fails.len(),
+        "universes": UNIVERSES.iter().map(|u| u.to_vec()).collect::<Vec<_>>(),
+    });
+    write_file(&a.out.join("summary.json"), &summ.to_string());
 }
